@@ -94,6 +94,9 @@ type Conn struct {
 	// WAL state (pager_wal.go)
 	wal *walConn
 
+	// BeforeWalUnlock, if set, is called when a WAL write transaction has
+	// published its commit and still holds the write lock.
+	BeforeWalUnlock func()
 	// OnCommitPoint, if set, is called at the instant COMMIT returns success
 	// to SQLite's caller (journal finalised / WAL write lock released).
 	OnCommitPoint func()
